@@ -93,13 +93,26 @@ def gen_tree(rng, layers, depth, counter, opts_stub):
         return t, {"t": "leaf", "id": tid, "lvl": lvl, "lyr": lyr}
     n = rng.choice([0, 1, 2, 2, 3])
     kids = [gen_tree(rng, layers, depth - 1, counter, opts_stub) for _ in range(n)]
-    s = unittest.TestSuite([k[0] for k in kids])
     lvl = rng.choice(LEVELS)
     lyr = rng.choice([None, None, None] + list(range(len(layers.objs))))
-    if lvl is not None:
-        s.level = lvl
+    lobj = None
     if lyr is not None:
-        s.layer = layers.names[lyr] if rng.random() < 0.3 and lyr != 0 else layers.objs[lyr]
+        lobj = layers.names[lyr] if rng.random() < 0.3 and lyr != 0 else layers.objs[lyr]
+    if (lvl is not None or lyr is not None) and rng.random() < 0.35:
+        # the declaration is made on a TestSuite subclass (class SlowSuite(unittest.TestSuite): level = 2), not on the
+        # suite object: a declaration all the same
+        ns = {}
+        if lvl is not None:
+            ns["level"] = lvl
+        if lobj is not None:
+            ns["layer"] = lobj
+        s = type("DeclaringSuite", (unittest.TestSuite,), ns)([k[0] for k in kids])
+    else:
+        s = unittest.TestSuite([k[0] for k in kids])
+        if lvl is not None:
+            s.level = lvl
+        if lobj is not None:
+            s.layer = lobj
     return s, {"t": "node", "lvl": lvl, "lyr": lyr, "kids": [k[1] for k in kids]}
 
 
